@@ -49,6 +49,8 @@ impl IndexData {
        spec='    ensures match *self { IndexData::Int32(d) => if d@.len() > 0 { r == Some(d@[0]) } else { r is None }, _ => r is None },'),
     Fn(HDR, 'as_u32_array', impl='impl IndexData', subs=[ret(), ('s.to_vec()', 's.as_slice().to_vec()', 1, 'R5-&Vec to &[T] deref')],
        spec='    ensures match *self { IndexData::Int32(d) => r is Some && r->0@ == d@, _ => r is None },'),
+    Fn(HDR, 'as_u64_array', impl='impl IndexData', subs=[ret(), ('s.to_vec()', 's.as_slice().to_vec()', 1, 'R5-&Vec to &[T] deref')],
+       spec='    ensures match *self { IndexData::Int64(d) => r is Some && r->0@ == d@, _ => r is None },'),
     Fn(HDR, 'as_u64', impl='impl IndexData', subs=[ret(), ('s.first().copied()', 'first_copied(s)', 1, 'R12-first().copied()')],
        spec='    ensures match *self { IndexData::Int64(d) => if d@.len() > 0 { r == Some(d@[0]) } else { r is None }, _ => r is None },'),
     Raw('''}
@@ -68,6 +70,7 @@ impl<T: Tag> Header<T> {
     getter('get_entry_data_as_u32', 'u32', 'get_u32', 'r->Ok_0'),
     getter('get_entry_data_as_u64', 'u64', 'get_u64', 'r->Ok_0'),
     getter('get_entry_data_as_u32_array', 'Vec<u32>', 'get_u32arr', 'r->Ok_0@'),
+    getter('get_entry_data_as_u64_array', 'Vec<u64>', 'get_u64arr', 'r->Ok_0@'),
     getter('get_entry_data_as_string_array', '&[String]', 'get_strarr', 'r->Ok_0@'),
     Raw('''}
 // vacuity canary: must FAIL
@@ -80,7 +83,7 @@ pub fn canary_getters<T: Tag>(h: &Header<T>, tag: T)
 ] + TAIL
 
 OBLIGATIONS = {'IndexData::as_str': ['C05'], 'IndexData::as_binary': ['C05'], 'IndexData::as_string_array': ['C05'], 'IndexData::as_i18n_str': ['C05', 'C04'],
-               'IndexData::as_u32': ['C05'], 'IndexData::as_u32_array': ['C05'], 'Header::get_entry_data_as_u32_array': ['C05'], 'IndexData::as_u64': ['C05'],
+               'IndexData::as_u32': ['C05'], 'IndexData::as_u32_array': ['C05'], 'IndexData::as_u64_array': ['C05'], 'Header::get_entry_data_as_u64_array': ['C05'], 'Header::get_entry_data_as_u32_array': ['C05'], 'IndexData::as_u64': ['C05'],
                'Header::get_entry_data_as_binary': ['C05'], 'Header::get_entry_data_as_string': ['C05'], 'Header::get_entry_data_as_i18n_string': ['C05', 'C04'],
                'Header::get_entry_data_as_u32': ['C05'], 'Header::get_entry_data_as_u64': ['C05'], 'Header::get_entry_data_as_string_array': ['C05']}
 CANARIES = ['canary_getters']
